@@ -78,6 +78,8 @@ pub(crate) fn syscommand_runner(
 )
 {
     let idx = **world.resource::<SyscommandCounter>();
+    #[cfg(feature = "verif")]
+    crate::verif::emit(crate::verif::VerifEvent::RunnerEnter{ target: *command, counter: idx });
 
     // cleanup
     garbage_collect_entities(world);
@@ -88,14 +90,26 @@ pub(crate) fn syscommand_runner(
     let Ok(mut entity_mut) = world.get_entity_mut(*command)
     else
     {
+        #[cfg(feature = "verif")]
+        crate::verif::emit(crate::verif::VerifEvent::RunnerDecision{
+            target: *command, decision: crate::verif::VerifRunnerDecision::AbortDead
+        });
         cleanup_on_abort(world, setup, cleanup);
+        #[cfg(feature = "verif")]
+        crate::verif::emit(crate::verif::VerifEvent::RunnerExit{ target: *command, counter: idx });
         return
     };
     let Some(mut system_command) = entity_mut.get_mut::<SystemCommandStorage>()
     else
     {
         tracing::error!(?command, "system command component is missing on extract");
+        #[cfg(feature = "verif")]
+        crate::verif::emit(crate::verif::VerifEvent::RunnerDecision{
+            target: *command, decision: crate::verif::VerifRunnerDecision::AbortNoComponent
+        });
         cleanup_on_abort(world, setup, cleanup);
+        #[cfg(feature = "verif")]
+        crate::verif::emit(crate::verif::VerifEvent::RunnerExit{ target: *command, counter: idx });
         return
     };
     let Some(mut callback) = system_command.take()
@@ -104,21 +118,37 @@ pub(crate) fn syscommand_runner(
         // Cache the callback unless at the bottom of the pile.
         if idx == 0 {
             tracing::warn!(?command, "system command missing");
+            #[cfg(feature = "verif")]
+            crate::verif::emit(crate::verif::VerifEvent::RunnerDecision{
+                target: *command, decision: crate::verif::VerifRunnerDecision::AbortRootMissing
+            });
             cleanup_on_abort(world, setup, cleanup);
         } else {
             tracing::debug!(?command, "deferring suspected recursive system command");
+            #[cfg(feature = "verif")]
+            crate::verif::emit(crate::verif::VerifEvent::RunnerDecision{
+                target: *command, decision: crate::verif::VerifRunnerDecision::Postponed
+            });
             world.resource_mut::<CobwebCommandQueue<BufferedSyscommand>>().push(
                 BufferedSyscommand{ command, setup, cleanup }
             );
         }
 
+        #[cfg(feature = "verif")]
+        crate::verif::emit(crate::verif::VerifEvent::RunnerExit{ target: *command, counter: idx });
         return
     };
 
     // run the system command
     **world.resource_mut::<SyscommandCounter>() += 1;
+    #[cfg(feature = "verif")]
+    crate::verif::emit(crate::verif::VerifEvent::RunnerDecision{
+        target: *command, decision: crate::verif::VerifRunnerDecision::Run
+    });
     setup.run(world);
     callback.run(world, cleanup);
+    #[cfg(feature = "verif")]
+    crate::verif::emit(crate::verif::VerifEvent::RunnerBodyDone{ target: *command });
 
     // cleanup
     // - We do this before reinserting the callback in case the callback garbage collected itself.
@@ -130,10 +160,14 @@ pub(crate) fn syscommand_runner(
         if let Some(mut system_command) = entity_mut.get_mut::<SystemCommandStorage>()
         {
             system_command.insert(callback);
+            #[cfg(feature = "verif")]
+            crate::verif::emit(crate::verif::VerifEvent::RunnerReinsert{ target: *command, reinserted: true });
         }
         else
         {
             std::mem::drop(callback);
+            #[cfg(feature = "verif")]
+            crate::verif::emit(crate::verif::VerifEvent::RunnerReinsert{ target: *command, reinserted: false });
             entity_mut.despawn_recursive();
             tracing::error!(?command, "system command component is missing on insert");
 
@@ -144,6 +178,8 @@ pub(crate) fn syscommand_runner(
     else
     {
         std::mem::drop(callback);
+        #[cfg(feature = "verif")]
+        crate::verif::emit(crate::verif::VerifEvent::RunnerReinsert{ target: *command, reinserted: false });
 
         // In case dropping the callback caused entities to be garbage collected.
         garbage_collect_entities(world);
@@ -163,6 +199,10 @@ pub(crate) fn syscommand_runner(
                 if buffered.command == command
                 {
                     tracing::debug!(?command, "running reordered recursive system command");
+                    #[cfg(feature = "verif")]
+                    crate::verif::emit(crate::verif::VerifEvent::RunnerReplay{
+                        parent: *command, target: *buffered.command
+                    });
                     syscommand_runner(world, buffered.command, buffered.setup, buffered.cleanup);
                     return false;
                 }
@@ -177,12 +217,16 @@ pub(crate) fn syscommand_runner(
     {
         while let Some(to_discard) = world.resource_mut::<CobwebCommandQueue<BufferedSyscommand>>().pop_front() {
             tracing::warn!(?to_discard.command, "failed to run missing system command");
+            #[cfg(feature = "verif")]
+            crate::verif::emit(crate::verif::VerifEvent::RunnerDiscard{ target: *to_discard.command });
             cleanup_on_abort(world, to_discard.setup, to_discard.cleanup);
         }
 
         // Reset the counter since we are exiting the system command tree.
         **world.resource_mut::<SyscommandCounter>() = 0;
     }
+    #[cfg(feature = "verif")]
+    crate::verif::emit(crate::verif::VerifEvent::RunnerExit{ target: *command, counter: idx });
 }
 
 //-------------------------------------------------------------------------------------------------------------------
